@@ -147,6 +147,10 @@ pub enum FOp {
 pub struct FPlan {
     pub hash_seed: u64,
     pub ops: Vec<FOp>,
+    /// The user's auto-correct list on the disk every context starts from (hex; none when
+    /// absent). May hold bytes that are not UTF-8 inside a string value.
+    #[serde(default)]
+    pub user_list_hex: Option<String>,
 }
 
 #[derive(Clone, Debug, Serialize, Deserialize)]
@@ -447,7 +451,46 @@ pub fn gen_plan(env: &Env, seed: u64, thorough: bool) -> FPlan {
         }
     }
     ops.extend(fixed);
-    FPlan { hash_seed: rng.next_u64(), ops }
+    // the user's own auto-correct list (every string it holds may end up in a C string):
+    // entries for single letters and short words, Bengali / ASCII / emoji replacements; in a
+    // third of the lists one replacement has a byte that is not UTF-8 (a damaged file that is
+    // still well-formed JSON as far as the brackets and quotes go)
+    let user_list_hex = if rng.pct(40) {
+        let mut doc: Vec<u8> = b"{".to_vec();
+        let n = rng.range(1, 4);
+        let bad = if rng.pct(50) { Some(rng.below(n)) } else { None };
+        for i in 0..n {
+            if i > 0 {
+                doc.push(b',');
+            }
+            let key: String = if rng.pct(75) {
+                (*rng.pick(letters) as char).to_string()
+            } else {
+                rng.pick(&words).chars().filter(|c| c.is_ascii_lowercase()).take(4).collect()
+            };
+            let key = if key.is_empty() { "a".to_string() } else { key };
+            let mut value: Vec<u8> = match rng.below(4) {
+                0 => "\u{0995}\u{09BE}".as_bytes().to_vec(),
+                1 => b"kotha".to_vec(),
+                2 => "\u{1F600}".as_bytes().to_vec(),
+                _ => "\u{09B8}\u{09BE}\u{09B0}".as_bytes().to_vec(),
+            };
+            if bad == Some(i) {
+                let at = rng.usize(value.len());
+                value[at] = 0xFF;
+            }
+            doc.extend_from_slice(b"\"");
+            doc.extend_from_slice(key.as_bytes());
+            doc.extend_from_slice(b"\":\"");
+            doc.extend_from_slice(&value);
+            doc.extend_from_slice(b"\"");
+        }
+        doc.push(b'}');
+        Some(doc.iter().map(|b| format!("{:02x}", b)).collect::<String>())
+    } else {
+        None
+    };
+    FPlan { hash_seed: rng.next_u64(), ops, user_list_hex }
 }
 
 // ---------------------------------------------------------------- execution (child)
@@ -557,6 +600,10 @@ fn set_bit(ptr: *mut Config, bit: u8, on: bool) {
 pub fn run_lifecycle(env: &Env, plan: &FPlan, st: &mut FStats) -> Result<(), FViolation> {
     crate::entropy::reseed(plan.hash_seed);
     let disk = SimDisk::new();
+    if let Some(hex) = &plan.user_list_hex {
+        let bytes: Vec<u8> = (0..hex.len() / 2).filter_map(|i| u8::from_str_radix(&hex[2 * i..2 * i + 2], 16).ok()).collect();
+        disk.put(crate::disk::FileId::Autocorrect, Some(bytes), None);
+    }
     let mut cfgs: Vec<Option<(CfgHandle, CfgSpec)>> = (0..NC).map(|_| None).collect();
     let mut ctxs: Vec<Option<Ctx>> = (0..NX).map(|_| None).collect();
     let mut sugs: Vec<Option<Sug>> = (0..NS).map(|_| None).collect();
